@@ -121,3 +121,8 @@ def run(ctx):
                 ctx.violation("credential identity (real primitives): " + (bad[1] if bad else "sanitizer/crash"),
                               {"stream": "identity-" + variant, "ops": [ops2[0], ops2[i] if i < len(ops2) else "(end)"], "impl_output": (bad[2] if bad else err[-2000:])},
                               found_input=True)
+    # "... and the decoder is told exactly that identity": what munge_decode() hands to the application (real libmunge
+    # decode.c / ctx.c on the reply), identities up to 2^32-2 - the client-level stream of C01, judged here for uid/gid
+    if drv:
+        from . import c01
+        c01.client_level(ctx, drv)
